@@ -9,7 +9,7 @@ EXPLANATION = ('SCOPE rule F1 on the four merge_all observers and their queued s
                'stored (queued) closure is called, while a guard of the shared observer_data cell may be held. An inner observable that emits '
                'synchronously at subscription re-enters InnerObserver::next, which re-acquires the same cell: RefCell panics, Mutex '
                'self-deadlocks. F4: slot accounting — outer next subscribes only into a free slot (counting it) and otherwise queues exactly once; an inner completion hands its slot to exactly one waiting task or gives it back; a queued task subscribes once and leaves the counter alone (decision tables over running - limit, abstract interpretation). F3: each observer method takes its decision and acts on it within one acquisition of the shared state (no check-then-act split). F2: the queue of waiting inner subscriptions is first-in-first-out (necessary for concat order and for merge_all(n) serving waiters in arrival order). Decides the "without panicking or blocking" clause and this ordering precondition; exactly-once delivery, order, order beyond F2 and the completion condition are not decided. Inner/outer error '
-               'envelopes are checked under C03.S2.')
+               'envelopes are checked under C03.S2. F5 the builders wire the concurrency limit their names promise: concat_all/concat_map = merge_all with limit 1, flatten/flat_map = no limit, merge_all(n) = n, in the local and the thread-safe form (operator trees of the builders).')
 ASSUMPTIONS = ['an inner observable may emit synchronously during actual_subscribe']
 
 TAGS = ['ops::merge_all::InnerObserver', 'ops::merge_all::InnerObserverThreads', 'ops::merge_all::OutsideObserver', 'ops::merge_all::OutsideObserverThreads']
@@ -64,6 +64,7 @@ def check(cx):
     res += f3(cx, ID, 'F3')
     if not cx.control:
         res += f4(cx)
+        res += f5(cx)
     from ..core import fifo_findings
     ff = fifo_findings(cx, ID, 'F2', ('src/ops/merge_all.rs',))
     res += ff
@@ -208,3 +209,17 @@ def f4(cx):
                                ('slot accounting (%s): %s' % (what, bad[0])) if bad else 'slot accounting of %s agrees with merge_all(n) on %d path classes' % (what, len(sums)),
                                fn['span'], witness(g, pred, bad[1], interesting_default) if bad else None))
     return res
+
+
+def f5(cx):
+    """the concurrency limit each builder of the flattening family passes on (operator trees, see C03.S11)"""
+    from . import c03
+    OP, SELF, A, C, MAXC = c03.OP, c03.SELF, c03.A, c03.C, c03.MAXC
+    table = {}
+    for suffix in ('', '_threads'):
+        table['observable::ObservableExt::merge_all' + suffix] = ('merge_all' + suffix, OP('merge_all', SELF, A(2)))
+        table['observable::ObservableExt::concat_all' + suffix] = ('concat_all' + suffix, OP('merge_all', SELF, C(1)))
+        table['observable::ObservableExt::flatten' + suffix] = ('flatten' + suffix, OP('merge_all', SELF, MAXC))
+        table['observable::ObservableExt::flat_map' + suffix] = ('flat_map' + suffix, OP('merge_all', OP('map', SELF, A(2)), MAXC))
+        table['observable::ObservableExt::concat_map' + suffix] = ('concat_map' + suffix, OP('merge_all', OP('map', SELF, A(2)), C(1)))
+    return c03.check_builder_trees(cx, ID, 'F5', table, what='does not pass on the concurrency limit its name promises')
